@@ -33,6 +33,8 @@ pub const WORDS: &[&str] = &[
     "\u{301}", "\\61", "\\0", "\\\n", "1", "0", "-1", ".5", "1.", "1e3", "1e-3", "1e999",
     "1e-999", "99999999999999999999", "0.00000000001", "1px", "1em", "1%", "1deg", "1s", "1dpi",
     "1in", "1fr", "1px*1px", "1/0", "0/0", "-0", "+1", "1e", "1e+", "0x10",
+    // sign / dot / exponent boundaries of the number lexer
+    "-.", "+.", "-.5", "+.5e", "-.x", "+.e", "1.e3", "1.5.2", "-..", ".e1", "1e-", "-.5e+",
 ];
 
 pub const GLOBAL_FNS: &[&str] = &[
